@@ -16,6 +16,7 @@ from __future__ import annotations
 import ast
 import re as _re
 from collections.abc import Iterator as _Iterator
+import pathlib as _pathlib
 from typing import Any, Callable
 
 from .loader import AnalysisError, ClassInfo, FuncInfo, Module, Repo, norm
@@ -769,6 +770,13 @@ class Interp:
             return getattr(base, attr)
         if isinstance(base, _re.Match) and attr == "re":
             return RegexVal(base.re.pattern, base.re.flags)
+        if isinstance(base, _pathlib.PurePath):
+            # pure path arithmetic only (PurePath has no file-system methods): properties are values, methods are bound
+            v = getattr(base, attr, _MISSING)
+            if v is _MISSING:
+                raise Raised("AttributeError", (attr,), node, BUILTIN_EXC["AttributeError"])
+            if not callable(v):
+                return v
         return BoundMethod(base, attr)
 
     def e_Subscript(self, n, env, m):
@@ -1609,6 +1617,18 @@ class Interp:
             env[t.id] = v
         elif isinstance(t, ast.Tuple | ast.List):
             items = self.iterate(v, t)
+            star = [i for i, e in enumerate(t.elts) if isinstance(e, ast.Starred)]
+            if star:
+                i0 = star[0]
+                n_after = len(t.elts) - i0 - 1
+                if len(star) > 1 or len(items) < len(t.elts) - 1:
+                    raise Raised("ValueError", ("unpack",), t, BUILTIN_EXC["ValueError"])
+                for tt, vv in zip(t.elts[:i0], items[:i0]):
+                    self.assign(tt, vv, env, m)
+                self.assign(t.elts[i0].value, list(items[i0:len(items) - n_after]), env, m)
+                for tt, vv in zip(t.elts[i0 + 1:], items[len(items) - n_after:] if n_after else []):
+                    self.assign(tt, vv, env, m)
+                return
             if len(items) != len(t.elts):
                 raise Raised("ValueError", ("unpack",), t, BUILTIN_EXC["ValueError"])
             for tt, vv in zip(t.elts, items):
